@@ -54,13 +54,17 @@ def execute(ctx: RunCtx) -> None:
     tol = ds.pick([1e-10, 1e-8], "e2e.tol")
     pfail = ds.pick([0.0, 0.25, 0.5, 0.8], "e2e.fault_rate")
     cfgd = {"spec": f"{s}-L{p}-{fam}", "stepper": stepper, "step": sign * mag, "M": M, "R": R, "boxk": boxk, "tol": tol, "pfail": pfail}
+    cfgd_late = cfgd
     log.add("cfg", {k: (fhex(v) if isinstance(v, float) else v) for k, v in cfgd.items()})
     system = E["sys"][s]
     lp = {1: L1Point, 2: L2Point}[p](system)
     x_seed, T_seed = E["seeds"][si]
     cls = {"halo": HaloOrbit, "lyapunov": LyapunovOrbit}[fam]
     seed = cls(lp, initial_state=x_seed.copy())
-    seed.period = T_seed
+    seed_has_period = not ds.flag("e2e.seed_period_none", 0.2)
+    if seed_has_period:
+        seed.period = T_seed
+    prior_generate = ds.flag("e2e.prior_generate_with_other_options", 0.2)
     idx = int(getattr(SynodicState, st).value)
     seed.continuation_config = OrbitContinuationConfig(state=getattr(SynodicState, st), stepper=stepper)
     step0 = np.array([sign * mag])
@@ -118,6 +122,14 @@ def execute(ctx: RunCtx) -> None:
         state["records"].append({"x": xc, "T": 2.0 * float(res.half_period), "res": float(res.residual_norm), "conv": bool(res.converged)})
         return res
 
+    if prior_generate:
+        # the seed object already produced another family (other limits): this one must not inherit anything from it
+        try:
+            seed.generate(OrbitContinuationOptions(target=([prm0 - 1000 * mag], [prm0 + 1000 * mag]), step=(-sign * mag,), max_members=2,
+                                                   max_retries_per_step=0, step_min=1e-10, step_max=1.0, extra_params=extra))
+            ctx.probe("prior_generate")
+        except Exception:
+            pass
     PeriodicOrbit.correct = correct_with_faults
     try:
         try:
@@ -135,6 +147,7 @@ def execute(ctx: RunCtx) -> None:
     fam_objs = list(result.family)
     seq = state["outcomes"]
     log.add("end", len(fam_objs), int(result.accepted_count), int(result.rejected_count), int(result.iterations), seq)
+    cfgd["seed_has_period"], cfgd["prior_generate"] = seed_has_period, prior_generate
     ctx.sig_parts = [cfgd, seq]
     ctx.nontrivial = bool(ctx.faults) or model.stopped in ("target", "max_members")
     ctx.sample = {"leg": "e2e", "config": cfgd, "outcomes": seq, "family_size": len(fam_objs), "stopped_by": model.stopped}
@@ -166,7 +179,7 @@ def execute(ctx: RunCtx) -> None:
             rec = state["records"][i - 1]
             if o.period is None or abs(float(o.period) - rec["T"]) > 1e-12 * max(1.0, rec["T"]):
                 raise Violation("C13/member-period", f"{what}: member {i} carries period {o.period!r}; its own correction found 2*half_period={rec['T']!r} "
-                                                     f"(seed period {T_seed!r})")
+                                                     f"(seed period {T_seed if seed_has_period else None!r})")
             if not (rec["res"] < tol):
                 raise Violation("C13/member-constraint", f"{what}: member {i} was accepted with residual {rec['res']:.3e} >= tol {tol:.1e}")
     # independent closure of up to two members (costly)
